@@ -25,7 +25,7 @@ RULE = ("objects = LASFiles built in memory or read back from text (mnemonic_cas
         "non-trivial = object with at least one disambiguated (duplicate or blank) mnemonic")
 ASSUMPTIONS = ["write() output is compared only when the original itself can be written",
                "observable equality = canonical snapshot (rv/canon.py) + write() text; identity of objects is not required"]
-REQUIRED = ["copies_compared", "objects_with_disambiguated_mnemonic", "independence_checks", "write_text_comparisons",
+REQUIRED = ["copies_compared", "objects_with_edited_index", "objects_with_disambiguated_mnemonic", "independence_checks", "write_text_comparisons",
             "item_copies", "section_copies"]
 SOFT_DEADLINE = {"quick": 90, "thorough": 1200}
 LEVEL_TEXT = ("Exploration: every copy made is compared field by field and by write() output with its source, and "
@@ -43,10 +43,15 @@ for sect in ("well", "params", "curves", "custom"):
 
 def grid(tier):
     import random
-    for k in range(24):
+    for k in range(36):
         rng = random.Random("C17grid%d" % k)
-        yield {"kind": "spec", "spec": lasobj.rand_spec(rng, text_curve=0.0, min_curves=3), "via": None, "methods": METHODS,
-               "variant": ["numeric_text_curve", "stale_suffix"][k % 2]}
+        spec = lasobj.rand_spec(rng, text_curve=0.0, min_curves=3, custom=0.0)
+        if len(spec["curves"][0][4]) < 4:
+            for c in spec["curves"]:
+                c[4] = (c[4] * 4)[:4]
+            spec["curves"][0][4] = [100.0 + 0.5 * i for i in range(4)]
+        variant = ["numeric_text_curve", "stale_suffix", "edited_index"][k % 3]
+        yield {"kind": "spec", "spec": spec, "via": "upper" if variant == "edited_index" else None, "methods": METHODS, "variant": variant}
     for sect, names in GRID_SPECS:
         for via in (None, "preserve", "upper", "lower"):
             yield {"kind": "layout", "section": sect, "names": names, "via": via}
@@ -112,7 +117,7 @@ def run_case(case, ctx):
         if via and (case["kind"] == "layout" or text_can_carry(spec)) and not _has_custom_or_textcurve(spec):
             spec["via_text"] = {"read": {"mnemonic_case": via}}
         methods = case.get("methods", METHODS)
-        variant = case.get("variant") or ("none" if case["kind"] == "layout" else ["none", "numeric_text_curve", "stale_suffix", "none"][case.get("seed_variant", 0) % 4])
+        variant = case.get("variant") or ("none" if case["kind"] == "layout" else ["none", "numeric_text_curve", "stale_suffix", "edited_index"][case.get("seed_variant", 0) % 4])
 
         def rebuild():
             las = lasobj.build(lasio, spec)
@@ -121,6 +126,10 @@ def run_case(case, ctx):
                 if np.asarray(c.data).dtype.kind == "f":
                     # a *string* curve whose samples all look numeric, assigned directly (as read(dtypes=str) or update_curve do)
                     c.data = np.array(["%.2f" % x if x == x else "nan" for x in np.asarray(c.data, dtype=float)])
+            if variant == "edited_index" and las.index_initial is not None and len(las.curves) and len(las.index) >= 3:
+                # the index was edited after the read (top row cropped), the last sample still equals the header STOP
+                if all(np.asarray(c.data).dtype.kind == "f" for c in las.curves):
+                    las.set_data(las.data[1:])
             if variant == "stale_suffix":
                 # delete the first member of every duplicate family: the survivors keep their (now stale) suffixes
                 for sec in las.sections.values():
@@ -138,6 +147,8 @@ def run_case(case, ctx):
             ctx.count("spec_not_buildable")
             return
         sig = [case.get("section"), case.get("names"), via] if case["kind"] == "layout" else ["spec", ctx.current_index]
+    if las.index_initial is not None and len(las.curves) and not canon.arrays_equal(las.index_initial, las.index):
+        ctx.count("objects_with_edited_index")
     disamb = any(it.mnemonic != it.original_mnemonic for sec in las.sections.values() if not isinstance(sec, str)
                  for it in secops.raw_items(sec))
     if disamb:
@@ -190,6 +201,10 @@ def check_object(ctx, rebuild, method, case):
     csnap = canon.clas(cpy)
     if csnap != snap:
         V(classify(snap, csnap), "%s copy differs: %s" % (method, canon.diff(snap, csnap)[:4]))
+    ii_src, ii_cpy = getattr(las, "index_initial", None), getattr(cpy, "index_initial", None)
+    if (ii_src is None) != (ii_cpy is None) or (ii_src is not None and not canon.arrays_equal(ii_src, ii_cpy)):
+        V("copy-index-initial-differs", "%s copy does not carry the index as read (index_initial): %r vs %r" % (
+            method, None if ii_src is None else np.asarray(ii_src)[:4].tolist(), None if ii_cpy is None else np.asarray(ii_cpy)[:4].tolist()))
     if canon.clas(las) != snap:
         V("copying-changed-source", "%s changed its source object" % method)
     try:
